@@ -26,7 +26,39 @@ def _build(name, repo):
     return exe
 
 
+def build_native(repo):
+    """cargo project with the bounded/native programs that need cfdp-core as a dependency; rebuilt against `repo`"""
+    tag = hashlib.sha1(os.path.abspath(repo).encode()).hexdigest()[:8]
+    d = os.path.join(BUILD, "native_" + tag)
+    src = os.path.join(VERIF, "replay", "core_native")
+    os.makedirs(os.path.join(d, "src", "bin"), exist_ok=True)
+    open(os.path.join(d, "Cargo.toml"), "w").write(open(os.path.join(src, "Cargo.toml.in")).read().replace("@REPO@", os.path.abspath(repo)))
+    os.makedirs(os.path.join(d, ".cargo"), exist_ok=True)
+    open(os.path.join(d, ".cargo", "config.toml"), "w").write("[net]\noffline = true\n")
+    import shutil
+    shutil.copy(os.path.join(repo, "Cargo.lock"), os.path.join(d, "Cargo.lock"))
+    for f in os.listdir(os.path.join(src, "src", "bin")):
+        shutil.copy(os.path.join(src, "src", "bin", f), os.path.join(d, "src", "bin", f))
+    env = dict(os.environ, CARGO_NET_OFFLINE="true", CARGO_TARGET_DIR=os.path.join(BUILD, "native_target"))
+    r = subprocess.run(["cargo", "build", "--release", "--offline", "--bins"], cwd=d, capture_output=True, text=True, env=env)
+    if r.returncode:
+        raise RuntimeError("cargo build of native programs failed: " + r.stderr[-1500:])
+    return os.path.join(BUILD, "native_target", "release")
+
+
+def run_native(prog, args, repo, timeout=900):
+    bindir = build_native(repo)
+    r = subprocess.run([os.path.join(bindir, prog)] + args, capture_output=True, text=True, timeout=timeout)
+    line = (r.stdout.strip().splitlines() or [""])[-1]
+    try:
+        d = json.loads(line)
+    except Exception:
+        d = {"raw": r.stdout[-500:] + r.stderr[-500:]}
+    return r.returncode, d
+
+
 def setup():
+    build_native("/repo")
     for n in PROGRAMS:
         _build(n, "/repo")
     print("search programs built")
@@ -57,6 +89,14 @@ def find(names, repo, violations):
 def replay(ds, repo):
     rc = 0
     for d in ds:
+        if d.get("native"):
+            if d["program"] == "checksum_bounded":
+                nrc, out = run_native(d["program"], ["replay", d.get("content", ""), d.get("reads", "")], repo)
+            else:
+                nrc, out = run_native(d["program"], ["replay"] + d.get("replay_args", []), repo)
+            print(json.dumps(out))
+            rc = rc or (1 if nrc == 1 else 0)
+            continue
         exe = _build(d["program"], repo)
         r = subprocess.run([exe, "replay", d.get("ops", ""), d.get("query", "")], capture_output=True, text=True)
         print(r.stdout.strip())
